@@ -60,6 +60,9 @@ DATA = {
     "un": (99, 3, False, b"\x41\x01x"),  # uncatalogued, no W
     "mw": (1, 3, True, b"\xff\xff\xff"),  # catalogued, malformed body, W
     "mn": (1, 4, False, b"\xff\xff\xff"),  # catalogued, malformed body, no W
+    # W-bit and function parity are independent: a primary may be sent without W (S5F1, S6F11, S9Fx ...), and a peer may set W on an even function
+    "pn": (1, 1, False, b""),            # PRIMARY (odd function) without W      S1F1
+    "ew": (1, 2, True, b"\x01\x00"),     # even function WITH W                  S1F2 W <L>
 }
 
 
@@ -708,12 +711,13 @@ CORE = ["con", "pcl", "dib", "die", "rx.selreq.U.0", "rx.desreq.U.0", "rx.lnkreq
         "rx.sepreq.U.0", "rx.rejreq.U.0", "dat.cw.U", "dat.cn.U"]
 FULL = CORE + ["rx.selrsp.Ms.0", "rx.selrsp.Ms.1", "rx.selrsp.Ml.0", "rx.desrsp.Md.0", "rx.desrsp.Md.1", "rx.lnkrsp.Ml.0", "rx.lnkrsp.U.0",
                "rx.rejreq.Ma.0", "rx.sepreq.Ma.0", "dat.uw.U", "dat.un.U", "dat.mw.U", "dat.mn.U", "dat.cw.Ma", "dat.cn.Ma",
+               "dat.pn.U", "dat.ew.U", "dat.pn.Ma", "dat.ew.Ma",
                "api.sel", "api.des", "api.lnk", "t6.Ma", "lt"]
 PREFIXES = [["con"], ["con", "rx.selreq.U.0"], ["con", "dib"], ["con", "rx.selreq.U.0", "dib"], ["con", "rx.selreq.U.0", "api.des"],
             ["con", "api.lnk"]]
 
 
-QUEUED = ["datq.cw.U", "datq.un.U", "datq.mw.U", "datq.cn.Ma"]
+QUEUED = ["datq.cw.U", "datq.un.U", "datq.mw.U", "datq.cn.Ma", "datq.pn.Ma"]
 # state-establishing prefixes for the queued dispatch, including the closed connection (the dispatcher thread survives a close)
 QPREFIXES = PREFIXES + [["con", "pcl"], ["con", "rx.selreq.U.0", "pcl"], ["con", "rx.selreq.U.0", "dib", "die"],
                         ["con", "rx.selreq.U.0", "pcl", "con"], ["con", "rx.selreq.U.0", "pcl", "con", "pcl"],
@@ -832,7 +836,7 @@ def main():
                         "class c05-select-rsp-unchecked / c05-separate-ignored (no longer listed in known_findings.txt: a NEW violation)"))
     res.rule = ("histories over {con, pcl (peer close), dib/die (local disable begin/end), rx Select/Deselect/Linktest.req, Select/Deselect.rsp "
                 "(solicited status 0 / solicited status 1 / unsolicited / matching another kind of request), Separate.req, Reject.req, Linktest.rsp, "
-                "data (catalogued / uncatalogued / malformed body) x (W / no W) x (unsolicited / matching system bytes), api select/deselect/linktest, "
+                "data (catalogued / uncatalogued / malformed body) x (odd / even function) x (W / no W) x (unsolicited / matching system bytes of an open own transaction), api select/deselect/linktest, "
                 "T6 expiry, linktest timer firing}, active and passive; exhaustive over the 13-letter core alphabet from the initial state and over the full alphabet after "
                 "six state-establishing prefixes; seeded random histories of 4-14 inputs.  distinct = distinct (mode, concretised history); "
                 "non-trivial = the history leaves NOT CONNECTED")
@@ -874,7 +878,10 @@ def main():
                       (False, ["con", "rx.selreq.U.0", "dat.cw.U", "pcl", "datq.cw.U"]),
                       (False, ["con", "lt", "pcl", "t6.Ma", "con", "lt", "rx.lnkrsp.Ml.0", "lt"]), (True, ["con", "lt", "rx.lnkrsp.Ml.0", "lt", "pcl", "lt"]),
                       (False, ["con", "lt", "pcl", "t6.Ma", "lt"]),
-                      (True, ["con", "rx.selreq.U.0", "dat.cw.Ma", "dat.cn.Ma"]), (False, ["con", "rx.selreq.U.0", "api.lnk", "dat.mw.Ma", "dat.mn.Ma"])]
+                      (True, ["con", "rx.selreq.U.0", "dat.cw.Ma", "dat.cn.Ma"]),
+                      # routing by function parity, not by W-bit: odd/even x W/no-W x matching/non-matching with an open own transaction
+                      (True, ["con", "rx.selreq.U.0", "dat.pn.Ma", "dat.ew.Ma"]), (False, ["con", "rx.selreq.U.0", "api.lnk", "dat.pn.Ma", "dat.cw.Ma", "dat.ew.Ma"]),
+                      (False, ["con", "rx.selreq.U.0", "api.lnk", "dat.pn.U", "dat.ew.U", "dat.cn.U", "dat.cw.U", "dat.cn.Ma"]), (False, ["con", "rx.selreq.U.0", "api.lnk", "dat.mw.Ma", "dat.mn.Ma"])]
 
     t0 = time.time()
     results = run_all(histories, workers)
